@@ -86,7 +86,7 @@ Inductive mode :=
 Definition is_takewhile (it : expr) : option expr :=
   match it with
   | Call (Attribute (Name a) b) [Lambda [] [_] None [] [] None [] test; Call (Attribute (Name c) d) [] []] [] =>
-      if String.eqb a "itertools" && String.eqb b "takewhile" && String.eqb c "itertools" && String.eqb d "count"
+      if String.eqb a "__ol_itertools" && String.eqb b "takewhile" && String.eqb c "__ol_itertools" && String.eqb d "count"
       then Some test else None
   | _ => None
   end.
